@@ -244,6 +244,11 @@ class XmlDateTime(NamedTuple):
 
     def to_datetime(self) -> datetime.datetime:
         """Return a `datetime.datetime` instance."""
+        if self.hour == 24:
+            # The first instant of the next day
+            midnight = self.replace(hour=0).to_datetime()
+            return midnight + datetime.timedelta(days=1)
+
         return datetime.datetime(
             self.year,
             self.month,
@@ -436,7 +441,7 @@ class XmlTime(NamedTuple):
     def to_time(self) -> datetime.time:
         """Convert to a `datetime.time` instance."""
         return datetime.time(
-            self.hour,
+            self.hour % 24,
             self.minute,
             self.second,
             self.microsecond,
